@@ -118,6 +118,16 @@ def gen_ops(rng, n, tier):
             c['perm'] = rng.random() < 0.3          # the same two feature names on both tracks, created in a different order
         else:
             c['a'] = rng.randint(-1, k + 1) * 1000 + rng.choice([0, 500]); c['b'] = rng.randint(-1, k + 1) * 1000 + rng.choice([0, 500])
+            if rng.random() < 0.4:                  # source track not in chronological order (reversed, shuffled, repeated instants): the span selects by instant, whatever the storage order
+                order = list(range(k))
+                r = rng.random()
+                if r < 0.3:
+                    order.reverse()
+                elif r < 0.8:
+                    rng.shuffle(order)
+                else:
+                    order = [rng.randrange(max(k, 1)) for _ in range(k)]
+                c['order'] = order
         out.append(c)
     return out
 
@@ -125,7 +135,7 @@ def gen_ops(rng, n, tier):
 def run_ops(case):
     from tracklib.core import ObsTime
     k = case['n']
-    t = mk([1000 * i for i in range(k)])
+    t = mk([1000 * i for i in (case.get('order') or range(k))])
     op = case['op']
     names0 = t.getListAnalyticalFeatures()
     if op == 'gt':
@@ -188,7 +198,8 @@ def coq_ops(case, obs):
     elif op == 'add':
         e = 'op_add nat %s (seq 100 %d)' % (base, case['m'])
     else:
-        e = 'span nat (fun i => (1000 * Z.of_nat i)%%Z) %s (%d)%%Z (%d)%%Z' % (base, max(case['a'], 0), max(case['b'], 0))
+        tm = '(fun i => (1000 * Z.of_nat i)%Z)' if not case.get('order') else '(fun i => (1000 * Z.of_nat (nth i %s 0%%nat))%%Z)' % N(case['order'])
+        e = 'span nat %s %s (%d)%%Z (%d)%%Z' % (tm, base, max(case['a'], 0), max(case['b'], 0))
     return '(%s, %s)' % (e, N(obs['ids']))
 
 
@@ -214,7 +225,8 @@ def oracle_ops(case, obs):
         exp = src + [100 + i for i in range(case['m'])]
     else:
         lo, hi = sorted([max(case['a'], 0), max(case['b'], 0)])
-        exp = [i for i in src if lo <= 1000 * i <= hi]
+        order = case.get('order') or src
+        exp = [i for i in src if lo <= 1000 * order[i] <= hi]
     if obs['ids'] != exp:
         return '%s on a track of %d fixes returned observations %r, designated: %r (%r)' % (op, k, obs['ids'], exp, case)
     if op != 'rm' and obs['src'] != src:
